@@ -159,6 +159,12 @@ func c07PoolHook(kind, op string, obj interface{}) {
 			}
 			c07BrPuts++
 		}
+		// likewise a connection's bufio.Writer: no goroutine may be inside a Write of the transport it wraps
+		if bw, ok := obj.(*bufio.Writer); ok && kind == "bufioWriter" {
+			if aw, ok := bufioWriterUnderlying(bw).(interface{ ActiveWrites() int }); ok && aw.ActiveWrites() > 0 {
+				c07Violate("C07/pool-put-while-in-use/bufioWriter-in-transport-write", "a connection's bufio.Writer is put into the pool while a goroutine is still inside a Write of the connection's transport through it (the rest of its buffer goes out on the transport of the next connection that gets the object)", stack)
+			}
+		}
 		o.pooled = true
 	case "get":
 		if o.gets > 0 || o.pooled {
@@ -203,6 +209,15 @@ func bufioUnderlying(br *bufio.Reader) io.Reader {
 		return nil
 	}
 	return *(*io.Reader)(unsafe.Pointer(f.UnsafeAddr()))
+}
+
+// bufioWriterUnderlying returns the io.Writer a bufio.Writer writes to.
+func bufioWriterUnderlying(bw *bufio.Writer) io.Writer {
+	f := reflect.ValueOf(bw).Elem().FieldByName("wr")
+	if !f.IsValid() {
+		return nil
+	}
+	return *(*io.Writer)(unsafe.Pointer(f.UnsafeAddr()))
 }
 
 func c07Setup() {
@@ -392,8 +407,8 @@ func c07Conn(r *fw.R, beh string, role Role, p wire.Params, seed uint64, success
 		r.Violate("C07/attach-failed", err.Error(), "")
 		return
 	}
-	if beh == "close-under-blocked-reader" {
-		// a blocked transport read does not come back the instant another goroutine closes the transport
+	if beh == "close-under-blocked-reader" || beh == "close-while-compressed-write-blocked" && seed%2 == 0 {
+		// a blocked transport read (or write) does not come back the instant another goroutine closes the transport
 		libEnd.Linger = time.Duration(1+rng.Intn(4)) * time.Millisecond
 	}
 	defer c.CloseNow()
